@@ -365,3 +365,62 @@ def arith(h):
                 if dr != exp_d or not close(mr, exp_m, 1e-9):
                     return {"reproduced": True, "call": call, "observed": [repr(r), mr, dr], "expected": [exp_m, exp_d]}
     return {"reproduced": False}
+
+
+@probe("array_ops")
+def array_ops(h):
+    """C10/C09: Array OP Array / number equals the Scalar results elementwise; empty operands work;
+    different lengths are rejected"""
+    import operator
+    import numpy
+    from barril.units import Array, Scalar
+
+    ops = {"add": operator.add, "sub": operator.sub, "mul": operator.mul, "truediv": operator.truediv, "floordiv": operator.floordiv}
+    var = h.get("variant") or []
+    todo = [x for x in var if x in ops] or ["add", "sub", "mul", "truediv"]
+    mk = {"list": list, "tuple": tuple, "ndarray": lambda v: numpy.array(v, dtype=float)}
+    conts = [x for x in var if x in mk]
+    ca = [conts[0]] if conts else list(mk)
+    cb = [conts[1]] if len(conts) > 1 else list(mk)
+    clause = h.get("clause") or ""
+    left_num = len(var) > 1 and var[1] in ("float", "int")
+    right_num = len(var) > 2 and var[2] in ("float", "int")
+    for o in todo:
+        for ka in ca:
+            for kb in cb:
+                for va, ua, vb, ub in (([1.0, 2.0, 3.0], "m", [10.0, 20.0, 30.0], "cm"), ([], "m", [], "cm"), ([1.0, 2.0, 3.0], "m", [1.0, 2.0], "m"), ([4.0, 5.0], "s", [1.0, 2.0], "m")):
+                    a = Array(mk[ka](va), ua)
+                    b = Array(mk[kb](vb), ub)
+                    if left_num:
+                        a = 2.5
+                    if right_num:
+                        b = 2.5
+                    call = "%r %s %r" % (a, o, b)
+                    la = len(va) if not left_num else len(vb)
+                    lb = len(vb) if not right_num else len(va)
+                    both = not left_num and not right_num
+                    try:
+                        r = ops[o](a, b)
+                    except Exception as e:
+                        if both and la != lb and isinstance(e, ValueError):
+                            continue
+                        if both and o in ("add", "sub") and ua == "s" and type(e).__name__ == "InvalidOperationError":
+                            continue
+                        return {"reproduced": True, "call": call, "observed": repr(e), "expected": "an Array" if la == lb or not both else "ValueError"}
+                    if both and la != lb:
+                        return {"reproduced": True, "call": call, "observed": repr(r), "expected": "ValueError (operands of different lengths)"}
+                    if not isinstance(r, Array):
+                        return {"reproduced": True, "call": call, "observed": repr(r), "expected": "an Array"}
+                    n = la if not left_num else lb
+                    if len(r) != n:
+                        return {"reproduced": True, "call": call, "observed": repr(r), "expected": "%d elements" % n}
+                    for i in range(n):
+                        sa = a if left_num else Scalar(va[i], ua)
+                        sb = b if right_num else Scalar(vb[i], ub)
+                        try:
+                            s = ops[o](sa, sb)
+                        except Exception as e:
+                            return {"reproduced": True, "call": call, "observed": repr(r), "expected": "Scalars raise %r" % e}
+                        if not close(float(r[i]), s.GetValue(), 1e-12) or r.GetQuantity() != s.GetQuantity():
+                            return {"reproduced": True, "call": call + " element %d" % i, "observed": [float(r[i]), repr(r.GetQuantity())], "expected": [s.GetValue(), repr(s.GetQuantity())]}
+    return {"reproduced": False}
